@@ -12,6 +12,7 @@ import (
 	"syscall"
 	"time"
 
+	"github.com/vicanso/pike/cache"
 	"github.com/vicanso/pike/config"
 	"verifh/hx"
 )
@@ -460,9 +461,107 @@ func c08Run(r *hx.Run, bin string, c c08Case, rnd *rand.Rand) {
 	}
 }
 
+// c08StoreWriteCrash: in-process enumeration of crash points at the granularity of single store writes.
+// A scripted store applies only the first n writes after the crash is armed (the rest are acknowledged and
+// lost, as if the process had died); then the memory is dropped (new dispatcher on the same store) and
+// the key is judged exactly like after a real restart.
+func c08StoreWriteCrash(r *hx.Run) {
+	storeURL := fmt.Sprintf("mem://c08w/%d", r.Seed)
+	ms := hx.NewMemStore(storeURL)
+	var armed atomic.Bool
+	var budget, writes atomic.Int64
+	ms.Script = func(op, key string, cur []byte) hx.StoreFault {
+		if op == "get" || !armed.Load() {
+			return hx.StoreFault{}
+		}
+		if writes.Add(1) > budget.Load() {
+			return hx.StoreFault{Kind: "drop"}
+		}
+		return hx.StoreFault{}
+	}
+	port := hx.FreePorts(1)[0]
+	gen := 0
+	mk := func(origin string) *config.PikeConfig {
+		gen++
+		return &config.PikeConfig{
+			Caches:    []config.CacheConfig{{Name: fmt.Sprintf("c08w%d", gen), Size: 1000, HitForPass: strconv.Itoa(c08P) + "s", Store: storeURL}},
+			Upstreams: []config.UpstreamConfig{{Name: "u", Servers: []config.UpstreamServerConfig{{Addr: origin}}}},
+			Locations: []config.LocationConfig{{Name: "l", Upstream: "u"}},
+			Servers:   []config.ServerConfig{{Addr: srvAddr(port), Locations: []string{"l"}, Cache: fmt.Sprintf("c08w%d", gen)}},
+		}
+	}
+	var origin string
+	w := newWorldCfg(r, 1, true, func(o []string) *config.PikeConfig { origin = o[0]; return mk(o[0]) })
+	defer w.Farm.Close()
+	restart := func() {
+		// all memory is gone, the store is what it is
+		w.Cfg = mk(origin)
+		w.apply(r)
+	}
+	id := 0
+	for _, history := range []string{"expire_then_refetch", "purge_then_refetch", "hit_for_pass_then_cacheable", "first_fetch"} {
+		for n := int64(0); n <= 3; n++ {
+			id++
+			c := c08Case{ID: 100000 + id, Kind: "store_write_crash:" + history, Nth: int(n)}
+			e := &c08Env{r: r, c: c, farm: w.Farm, cl: w.Cl, addr: w.Addr, purged: map[string]map[int64]bool{}, infl: map[string]int{}, starts: map[string]int{}}
+			uri := fmt.Sprintf("/c08/c/%d/w", c.ID)
+			cacheableNow := atomic.Bool{}
+			cacheableNow.Store(true)
+			w.Farm.SetScript(func(f *hx.Fetch) *hx.Reply {
+				if !cacheableNow.Load() {
+					return &hx.Reply{Status: 200, Header: [][2]string{{"Content-Type", "text/plain"}, {"X-Multi", "a"}, {"X-Multi", "b"}, {"Cache-Control", "no-store"}}, Body: hx.IdentBody(f, 1500, "text")}
+				}
+				return e.script(f)
+			})
+			get := func() *hx.Result {
+				return w.Cl.Do(hx.Req{Addr: w.Addr, Host: "c08.example", URI: uri, Timeout: 10 * time.Second})
+			}
+			ok := true
+			switch history {
+			case "expire_then_refetch":
+				ok = e.judgeInproc(get(), "populate")
+				w.Clock.Advance(c08T + 1)
+			case "purge_then_refetch":
+				ok = e.judgeInproc(get(), "populate")
+			case "hit_for_pass_then_cacheable":
+				cacheableNow.Store(false)
+				get()
+				cacheableNow.Store(true)
+				w.Clock.Advance(c08P + 1)
+			}
+			if !ok {
+				continue
+			}
+			writes.Store(0)
+			budget.Store(n)
+			armed.Store(true)
+			if history == "purge_then_refetch" {
+				cache.RemoveHTTPCache("", []byte("GET c08.example "+uri))
+				// the purge may or may not have reached the store; it is not judged here
+			}
+			get() // the refetch whose persistence is cut short
+			armed.Store(false)
+			restart()
+			r.Add("in_process_restarts_after_partial_store_writes", 1)
+			for _, adv := range []int64{0, c08T / 2, c08T/2 + 1, 1} {
+				w.Clock.Advance(adv)
+				if !e.judgeInproc(get(), fmt.Sprintf("after_crash_at_write_%d", n)) {
+					break
+				}
+			}
+			r.Eval(1)
+			r.Distinct(fmt.Sprintf("store_write_crash %s n=%d", history, n))
+			w.Clock.Advance(c08T + 5)
+		}
+	}
+}
+
+// judgeInproc: the same oracle as after a real restart, on the virtual clock of the in-process world
+func (e *c08Env) judgeInproc(res *hx.Result, phase string) bool { return e.judge(res, phase) }
+
 func c08(r *hx.Run) {
 	r.Level = "fault_enumeration"
-	r.Rule = "real pike binary (race build) with a badger store and a clock file; every second case with an LRU of 32 entries for about 100 keys (constant eviction and reload from badger). Per case three incarnations on the same store: (1) populate cacheable (T=100) and uncacheable (period 20 s) keys, 8 sequentially and 48 in one concurrent burst, SIGKILL at quiescence; (2) concurrent writes of 40 new keys, hits and purges (admin API) with the crash armed: self-kill the n-th time a named hook point is reached (cacheable.enter/released/saved, hfp.enter/released/saved, get.loaded, purge.removed; n first/middle/late), external SIGKILL at a random moment, or SIGTERM; (3) restart and probe every key in the same second, at mid-life, at the exact expiry second and one second later; (4) SIGKILL, move the clock past every expiry, restart, probe again (first lookup after the restart). Every answer is judged against the origin's log: byte-identical version of that key, hit only inside the version's original lifetime with Age continuing from the original fetch and no upstream contact, never a version whose purge completed, hit-for-pass only inside a marker's period; pike must come up after every stop. Non-trivial/distinct = (kind, point, n) whose crash point was reached."
+	r.Rule = "real pike binary (race build) with a badger store and a clock file; every second case with an LRU of 32 entries for about 100 keys (constant eviction and reload from badger). Per case three incarnations on the same store: (1) populate cacheable (T=100) and uncacheable (period 20 s) keys, 8 sequentially and 48 in one concurrent burst, SIGKILL at quiescence; (2) concurrent writes of 40 new keys, hits and purges (admin API) with the crash armed: self-kill the n-th time a named hook point is reached (cacheable.enter/released/saved, hfp.enter/released/saved, get.loaded, purge.removed; n first/middle/late), external SIGKILL at a random moment, or SIGTERM; (3) restart and probe every key in the same second, at mid-life, at the exact expiry second and one second later; (4) SIGKILL, move the clock past every expiry, restart, probe again (first lookup after the restart). In-process, the same oracle judges crashes at the granularity of single store writes: after expiry+refetch, purge+refetch, a hit-for-pass period turning cacheable and a first fetch, only the first n store writes (n = 0..3) are applied, then the memory is dropped and the key is probed across its lifetime. Every answer is judged against the origin's log: byte-identical version of that key, hit only inside the version's original lifetime with Age continuing from the original fetch and no upstream contact, never a version whose purge completed, hit-for-pass only inside a marker's period; pike must come up after every stop. Non-trivial/distinct = (kind, point, n) whose crash point was reached."
 	r.Assume = []string{"refetching is always allowed (survival of an entry is not demanded)", "clock = real clock + offset file (whole seconds); verdicts use [call,return] clock intervals", "power-loss durability is out of scope (SIGKILL keeps the page cache)"}
 	bin, err := hx.BuildPike(r.Scratch)
 	if err != nil {
@@ -515,6 +614,7 @@ func c08(r *hx.Run) {
 	}
 	wg.Wait()
 	r.Set("cases", len(cases))
+	c08StoreWriteCrash(r)
 }
 
 func init() { register("C08", "fault_enumeration", c08) }
